@@ -117,7 +117,10 @@ func C20(tier string) int {
 		if hi > len(seqsI) {
 			hi = len(seqsI)
 		}
-		type viol struct{ key, what string; rep M }
+		type viol struct {
+			key, what string
+			rep       M
+		}
 		var vs []viol
 		classes := map[string]struct{}{}
 		outc := map[string]int{}
